@@ -115,6 +115,10 @@ static void classify_crash(const std::string &text, int status, std::string &kin
         func = line.substr(s, e - s);
         break;
     }
+    {   // C19: the allocation site whose failure was injected last (printed by the allocator seam)
+        size_t a = text.rfind("VSIM-ALLOC-FAIL ");
+        if (a != std::string::npos) { size_t e = text.find('\n', a); std::string site = text.substr(a + 16, e - (a + 16)); if (func != "?") { func = site + "->" + func; } else { func = site + "->?"; } }
+    }
     if (func == "?") {
         size_t q = text.find("/repo/");
         if (q != std::string::npos) { size_t e = text.find_first_of(": \n", q); std::string path = text.substr(q, e - q); size_t sl = path.rfind('/'); func = path.substr(sl + 1); }
@@ -437,6 +441,10 @@ static int cmd_check(const std::string &id, int tier, uint64_t seed, int64_t run
     std::map<std::string, Candidate> by_sig;
     std::map<std::string, int> sig_count;
     for (auto &c : cands) { sig_count[c.v.sig]++; if (!by_sig.count(c.v.sig)) { by_sig[c.v.sig] = c; } }
+    if (getenv("VSIM_LIST_SIGS")) {
+        for (auto &kv : sig_count) { Known *k = match_known(known, m->id, kv.first); printf("SIG %5d %s %s\n", kv.second, k ? "known" : "NEW  ", kv.first.c_str()); }
+        return 0;
+    }
     int new_violations = 0, nondeterministic = 0, known_seen = 0;
     std::vector<std::string> finding_lines, violation_json;
     mkdir((VERIF_DIR + "/replays").c_str(), 0755);
